@@ -143,8 +143,13 @@ package lexer
 //@ func New
 //@ ensures true
 
+// the task keyword is recognised exactly when the next word is 'task': an identifier that merely
+// starts with it (tasks, task_dir) is an identifier (C07: such a name printed at the start of a line
+// must read back as the same name)
 //@ func lexStart
 //@ implements lexer.lexFn
+//@ ensures [C07,keyword-needs-a-word-boundary] result == lexTaskKeyword ==> hasPrefixAt(l.input, l.pos, "task") && !isIdentRune(runeAt(l.input, l.pos + 4))
+//@ ensures [C07,identifier-starting-with-task-is-an-identifier] !old(l.done) && hasPrefixAt(l.input, l.pos, "task") && isIdentRune(runeAt(l.input, l.pos + 4)) ==> result == lexIdent
 
 //@ func lexHash
 //@ implements lexer.lexFn
